@@ -109,6 +109,15 @@ fn gen_spec(src: &mut Src) -> Spec {
         let i = src.below(pool.len());
         vars.push(pool.remove(i).to_string());
     }
+    if nc == 3 && src.chance(30) {
+        // occasionally many labels (distinct synthetic names, values from the same adversarial pool)
+        for k in 0..(2 + src.below(9)) {
+            consts.push((format!("x{}", k), src.pick(VALUES).to_string()));
+        }
+        for k in 0..src.below(8) {
+            vars.push(format!("y{}", k));
+        }
+    }
     Spec { ns: String::new(), sub: String::new(), name, help, consts, vars, route: src.below(3) as u8, seed: src.byte() as u64 }
 }
 
